@@ -50,7 +50,7 @@ def build_sched(variant="vrelease"):
     if key in _built:
         return
     t0 = time.time()
-    r = subprocess.run(["cargo", "build", "--offline", "--profile", variant, "-p", "sched"], cwd=SCHED, env=ENV,
+    r = subprocess.run(["cargo", "build", "--offline", "--profile", variant, "-p", "sched", "--target-dir", os.path.join(TARGET, "sched")], cwd=SCHED, env=ENV,
                        stdout=subprocess.PIPE, stderr=subprocess.STDOUT, text=True)
     if r.returncode != 0:
         sys.stderr.write(r.stdout[-6000:])
